@@ -23,6 +23,7 @@ Decided (structural; the global state machine over histories is NOT decided):
     constant true - a later event can never clear it, so a drained connection is always closed with a reset.
  X4 buffer return: every received packet, whatever the handler's outcome, returns its buffer (C19.Q1 on the receive
     queue's poll).
+ X8 lookups that return (index, connection) enumerate the table's own iterator (the index is the position callers remove at).
 """
 import json
 from .common import *
@@ -236,7 +237,7 @@ def x5_predicates(F, R):
 VSOCK_OPS = {1: 'ConnectionRequest', 2: 'Connected', 3: 'Disconnected', 4: 'Disconnected', 5: 'Received', 6: 'CreditUpdate', 7: 'CreditRequest'}
 
 
-def x7_index_is_position(F, R):
+def x8_index_is_position(F, R):
     """A lookup that hands back (index, &mut connection) returns the connection's position in the table, because callers remove the
     connection with that index: its `enumerate` numbers the table's own iterator - not a filtered / skipped / reversed view of it,
     whose indices count only the surviving elements."""
@@ -253,7 +254,7 @@ def x7_index_is_position(F, R):
             recv = strip_conv(S.operand(c.id, c.d['args'][0]))
             direct = recv[0] == 'call' and recv[2].rsplit('::', 1)[-1] in ('iter', 'iter_mut', 'into_iter') and not any(
                 x[0] == 'call' and x is not recv for a in recv[3] for x in subterms(a))
-            R.check(direct, 'X7', '%s:index-is-position' % b['id'], site(sg, c), 'enumerate() numbers the table\'s own iterator',
+            R.check(direct, 'X8', '%s:index-is-position' % b['id'], site(sg, c), 'enumerate() numbers the table\'s own iterator',
                     '%s returns an index taken from enumerate() over %s, not over the connection table itself: the index counts only the elements '
                     'that adapter lets through, and callers remove the connection at that index (the wrong connection is dropped)' % (b['name'], fmt(recv)[:80]))
     R.count('indexed_lookups', n)
@@ -466,7 +467,7 @@ def run(F, R):
     x5_predicates(F, R)
     x7_shutdown_flag(F, R)
     x10_event_decoding(F, R)
-    x7_index_is_position(F, R)
+    x8_index_is_position(F, R)
     M = model(F)
     M.require_rings()
     roles = C05.classify_api(C05.queue_api(F, M))
